@@ -23,11 +23,28 @@ std::string slurp(int fd) {
 
 struct Rng { uint64_t x; uint64_t next() { x ^= x << 13; x ^= x >> 7; x ^= x << 17; return x; } };
 
-std::string workload(int id, int nrec, uint64_t seed, bool yields) {
+// a C-DNS file with members the reader does not know (nested arrays, maps, tags, chunked strings) in the preamble, in the
+// block and in a record: reading it exercises skip_item
+const char* UNKNOWN_KEYS_FILE =
+    "98037f62432d63444e537a00000000ffbf0201011a00000000039801bf00bf18001903e81b0000000000000002bf18001a0003ffff18011a0001ffff"
+    "1802180318031803ff1803990006001900011b00000000000000021b0000000000000004190005190006010a3b00000000000006935a000000173abf"
+    "129a3097ad96b442d6d1bdef4850c3f465442eb3001a000000049f0102031a000000041a000000051b00000000000000060718081809180a0b0c1900"
+    "0d0e1a0000000f19001011121b000000000000001318141b0000000000000015190016171a000000181819181a1b000000000000001b1a0000001c18"
+    "1d1b000000000000001e181f18201900211900221b00000000000000231b0000000000000024182518261b00000000000000271828190029182a1b00"
+    "0000000000002b1a0000002c1a0000002d19002e19002f1b000000000000003018311b00000000000000321a000000331a00000034183518371a0000"
+    "003818391a0000003a183b19003c183d1a0000003e1a0000003f1a000000401a000000411863186419006518661a0000006718681900691a0000006a"
+    "186b186c186d18f91b00000000000000fa1a000000fb18fc1900fd1900fe1900ff1901001901011901021901031901041b00000000000080001a0000"
+    "8001ffffff3a00000e397f7a000000017c7b00000000000000007a00000001897b00000000000000029296ff00011b7fffffffffffffff41f4ff81bf"
+    "02bf1a000000009f440a0000015f410a41005a000000020002ffff1a000000029f5a0000000403777777ffff1900049fbf1b00000000000000001b00"
+    "0000000000000118021b00000000000000011900041801ffff1bfffffffffffffffffae87ac7ec00bf1b0000000000000001001b0000000000000000"
+    "9f19000a1b0000000000000005ffff1b000000000000000382b900040100021b00000000000000350700001800bf0218073a00000000780241531b7f"
+    "ffffffffffffff7a00000000ffff";
+
+std::string workload(CDNS::FilePreamble& shared_fp, int id, int nrec, uint64_t seed, bool yields) {
     Rng rng{seed * 1000003ULL + id * 7919ULL + 1};
     Rng yrng{seed * 31ULL + id + 5};       // scheduling noise only: never influences the data
-    CDNS::FilePreamble fp;
-    fp.m_block_parameters[0].storage_parameters.max_block_items = 1 + (id % 7);
+    // every exporter is constructed from the SAME preamble object (the constructor copies it)
+    CDNS::FilePreamble& fp = shared_fp;
     int comp = id % 3;
     int fd = memfd_create("thr", 0);
     int keep = dup(fd);
@@ -35,6 +52,14 @@ std::string workload(int id, int nrec, uint64_t seed, bool yields) {
     {
         CDNS::CdnsExporter exp(fp, fd, comp == 0 ? CDNS::CborOutputCompression::NO_COMPRESSION
                                       : comp == 1 ? CDNS::CborOutputCompression::GZIP : CDNS::CborOutputCompression::XZ);
+        // own parameter set, added and activated on this exporter only
+        CDNS::BlockParameters bp;
+        bp.storage_parameters.max_block_items = 1 + (id % 7);
+        bp.storage_parameters.ticks_per_second = 1000000;
+        CDNS::index_t bpi = exp.add_block_parameters(bp);
+        exp.set_active_block_parameters(bpi);
+        exp.write_block();
+        acc += "bp" + std::to_string(bpi);
         for (int i = 0; i < nrec; i++) {
             CDNS::GenericQueryResponse g;
             g.ts = CDNS::Timestamp(1600000000 + id, rng.next() % 1000000);
@@ -81,6 +106,22 @@ std::string workload(int id, int nrec, uint64_t seed, bool yields) {
         }
         res += "/" + vh::digest(dump);
     }
+    {   // a file with unknown members (skip_item)
+        std::istringstream is(vh::from_hex(UNKNOWN_KEYS_FILE));
+        std::string d;
+        try {
+            CDNS::CdnsReader reader(is);
+            bool eof = false;
+            while (true) {
+                CDNS::CdnsBlockRead b = reader.read_block(eof);
+                if (eof) break;
+                bool end = false;
+                while (true) { auto q = b.read_generic_qr(end); if (end) break; d += rec::show_qr(q); if (yields && (yrng.next() & 1) == 0) sched_yield(); }
+            }
+            d += "EOF";
+        } catch (std::exception& e) { d += std::string("EXC"); }
+        res += "/" + d;
+    }
     return res;
 }
 }  // namespace
@@ -93,9 +134,10 @@ int vh::run_thr(int, char**) {
         int n = std::atoi(a[1].c_str()), nrec = std::atoi(a[2].c_str());
         uint64_t seed = std::strtoull(a[3].c_str(), nullptr, 10);
         std::vector<std::string> seq(n), par(n);
-        for (int i = 0; i < n; i++) seq[i] = workload(i, nrec, seed, false);
+        CDNS::FilePreamble shared_seq, shared_par;
+        for (int i = 0; i < n; i++) seq[i] = workload(shared_seq, i, nrec, seed, false);
         std::vector<std::thread> ts;
-        for (int i = 0; i < n; i++) ts.emplace_back([&, i]() { try { par[i] = workload(i, nrec, seed, true); } catch (std::exception& e) { par[i] = std::string("EXC:") + e.what(); } });
+        for (int i = 0; i < n; i++) ts.emplace_back([&, i]() { try { par[i] = workload(shared_par, i, nrec, seed, true); } catch (std::exception& e) { par[i] = std::string("EXC:") + e.what(); } });
         for (auto& t : ts) t.join();
         std::string out = "I seq=";
         for (int i = 0; i < n; i++) out += (i ? "," : "") + seq[i];
